@@ -2,7 +2,7 @@
 From Coq Require Import ZArith List Bool Lia ZifyBool.
 From Exactly Require Import Model.Interval Proofs.IntervalSound.
 Import ListNotations.
-Open Scope Z_scope.
+Local Open Scope Z_scope.
 
 (** Well-formed line-number interval: what [adapt_to_line_num_range] and the combinations of
     its results produce: an upper bound is >= 1 and >= the lower bound. *)
